@@ -116,15 +116,20 @@ fn ref_convertbits(data: &[u8]) -> Vec<u8> {
 /// bech32 / bech32m / blech32 / blech32m string from scratch (BIP173 reference algorithm with the
 /// variant's generator table, checksum length and constant)
 pub fn ref_segwit(variant: &str, hrp: &str, ver: u8, payload: &[u8]) -> String {
-    let (g, l, target) = ref_params(variant);
     let mut syms = vec![ver];
     syms.extend(ref_convertbits(payload));
-    let mut padded = syms.clone();
+    ref_segwit_syms(variant, hrp, &syms)
+}
+/// the same from data symbols (witness version first), so that non-canonical symbol strings can be built
+pub fn ref_segwit_syms(variant: &str, hrp: &str, syms: &[u8]) -> String {
+    let (g, l, target) = ref_params(variant);
+    let mut padded = syms.to_vec();
     padded.extend(std::iter::repeat(0).take(l as usize));
-    let pm = ref_polymod(g, l, hrp.as_bytes(), &padded) ^ target;
+    let lower: Vec<u8> = hrp.bytes().map(|b| b.to_ascii_lowercase()).collect();
+    let pm = ref_polymod(g, l, &lower, &padded) ^ target;
     let mut s = String::from(hrp);
     s.push('1');
-    for v in &syms {
+    for v in syms {
         s.push(CHARSET[*v as usize] as char);
     }
     for i in 0..l {
@@ -256,6 +261,67 @@ fn check_invalid(out: &mut Out, what: &str, s: &str) {
     k_parsewith(out, n, p, s);
     let acc = super::c17::accepted_anywhere(s);
     out.s(what, acc.is_none(), || format!("{} accepted: {}", s, acc.clone().unwrap_or_default()));
+}
+
+/// a string that must not parse anywhere; K through from_str, parse_with_params of EVERY network and both
+/// segwit decoders
+fn check_invalid_all(out: &mut Out, what: &str, s: &str) {
+    k_parse(out, s);
+    for (n, p) in nets() {
+        k_parsewith(out, n, p, s);
+    }
+    super::c17::k_segwit(out, 0, s);
+    super::c17::k_segwit(out, 1, s);
+    let acc = super::c17::accepted_anywhere(s);
+    out.s(what, acc.is_none(), || format!("{} accepted: {}", s, acc.clone().unwrap_or_default()));
+}
+
+/// non-canonical padding: the payload symbols of a (otherwise standard) witness program with every non-zero
+/// pattern in the k padding bits of the last symbol (checksum recomputed by the independent encoder), and,
+/// where it cannot be read as a longer program, one extra all-zero symbol
+fn dirty_padding(out: &mut Out, params: &'static AddressParams, blinder: Option<PublicKey>, ver: u8, prog: &[u8]) {
+    let blinded = blinder.is_some();
+    let mut payload = vec![];
+    if let Some(pk) = &blinder {
+        payload.extend_from_slice(&pk.serialize());
+    }
+    payload.extend_from_slice(prog);
+    let hrp = if blinded { params.blech_hrp } else { params.bech_hrp };
+    let variant = right_variant(blinded, ver);
+    let mut syms = vec![ver];
+    syms.extend(ref_convertbits(&payload));
+    let k = (syms.len() - 1) * 5 - payload.len() * 8;
+    out.count(&format!("padding.bits{}.{}", k, if blinded { "blinded" } else { "plain" }));
+    // the clean string is the displayed one
+    let a = mk(params, Payload::WitnessProgram { version: Fe32::try_from(ver).unwrap(), program: prog.to_vec() }, blinder);
+    let clean = ref_segwit_syms(variant, hrp.as_str(), &syms);
+    out.s("independent_encoder_agrees", clean == a.to_string(), || format!("real={} ref={}", a, clean));
+    for pat in 1u8..(1 << k) {
+        let mut d = syms.clone();
+        *d.last_mut().unwrap() |= pat;
+        let t = ref_segwit_syms(variant, hrp.as_str(), &d);
+        k_parse(out, &t);
+        k_parsewith(out, net_name(params), params, &t);
+        super::c17::k_segwit(out, if blinded { 1 } else { 0 }, &t);
+        let acc = super::c17::accepted_anywhere(&t);
+        out.s("dirty_padding_rejected", acc.is_none(), || format!("padding bits {} pattern {:#b}: {} accepted: {} (canonical string {})", k, pat, t, acc.clone().unwrap_or_default(), clean));
+        if pat == (1 << (k - 1)) || pat == 1 {
+            let up = t.to_uppercase();
+            k_parse(out, &up);
+            let acc = super::c17::accepted_anywhere(&up);
+            out.s("dirty_padding_rejected", acc.is_none(), || format!("padding bits {} pattern {:#b}: {} accepted: {}", k, pat, up, acc.clone().unwrap_or_default()));
+        }
+    }
+    if k <= 2 {
+        // 5 + k < 8 surplus bits: too much padding
+        let mut d = syms.clone();
+        d.push(0);
+        let t = ref_segwit_syms(variant, hrp.as_str(), &d);
+        k_parse(out, &t);
+        super::c17::k_segwit(out, if blinded { 1 } else { 0 }, &t);
+        let acc = super::c17::accepted_anywhere(&t);
+        out.s("excess_padding_rejected", acc.is_none(), || format!("{} accepted: {}", t, acc.clone().unwrap_or_default()));
+    }
 }
 
 /// any string: at most one network, shape, canonical form, consistency of from_str with parse_with_params
@@ -548,6 +614,132 @@ pub fn run(rng: &mut R, out: &mut Out) {
         let h = Hrp::parse(hrp).unwrap();
         for v in ["bech32", "bech32m", "blech32", "blech32m"] {
             check_invalid(out, "unknown_hrp_rejected", &enc_variant(v, &h, 0, &gen::bytes(rng, 20)));
+        }
+    }
+
+    // ---- non-canonical padding: every program length 2..40, every non-zero padding pattern
+    {
+        let all_nets = nets();
+        let first = rng.gen_range(0..3usize);
+        for (ni, (_, p)) in all_nets.iter().enumerate() {
+            let full = thorough || ni == first;
+            for blinded in [false, true] {
+                for len in 2..=40usize {
+                    // quick: all lengths for one network; for the others the lengths with 4 padding bits
+                    // and a sample of the rest
+                    let kbits = { let n = len + if blinded { 33 } else { 0 }; (8 * n + 4) / 5 * 5 - 8 * n };
+                    if !full && kbits != 4 && rng.gen_range(0..6) != 0 {
+                        continue;
+                    }
+                    let mut vers: Vec<u8> = vec![1 + (rng.gen_range(0..16u8))];
+                    if len == 20 || len == 32 {
+                        vers.push(0);
+                    }
+                    if thorough {
+                        vers.push(1);
+                        vers.push(16);
+                    }
+                    for ver in vers {
+                        let bl = if blinded { Some(gen::pubkey(rng)) } else { None };
+                        dirty_padding(out, p, bl, ver, &bytes_edge(rng, len));
+                    }
+                }
+            }
+        }
+    }
+
+    // ---- checksum-valid segwit strings over FOREIGN hrps related to the networks' hrps: the decoders split
+    // at the LAST '1' and never compare the decoded hrp with the parameters, so only the prefix dispatch
+    // keeps these out
+    {
+        let mut foreign: Vec<String> = vec![];
+        for (_, p) in nets() {
+            for h in [p.bech_hrp.as_str().to_string(), p.blech_hrp.as_str().to_string()] {
+                foreign.push(format!("{}1", h));
+                foreign.push(format!("{}1x", h));
+                foreign.push(format!("{}1q", h));
+                foreign.push(format!("{}11", h));
+                foreign.push(format!("{}1test", h));
+                foreign.push(format!("1{}", h));
+                foreign.push(format!("x{}", h));
+                foreign.push(format!("{}q", h));
+                foreign.push(format!("{}x", h));
+                foreign.push(format!("{}{}", h, h));
+                foreign.push(h[..h.len() - 1].to_string());
+                foreign.push(h[1..].to_string());
+                foreign.push(format!("{}1{}", h, p.bech_hrp.as_str()));
+            }
+        }
+        for h in ["ertnet", "tlqq", "e", "l", "t", "er", "te", "tl", "exlq", "lqex", "ex1lq", "lq1ex", "el1ert", "tex1tlq", "1", "11", "e1x", "bc", "tb"] {
+            foreign.push(h.to_string());
+        }
+        foreign.sort();
+        foreign.dedup();
+        // strict prefixes / suffixes of one network's hrp may spell another network's hrp ("tex" -> "ex")
+        foreign.retain(|h| !nets().iter().any(|(_, p)| p.bech_hrp.as_str() == h || p.blech_hrp.as_str() == h));
+        out.count_n("foreign_hrps", foreign.len() as u64);
+        for (i, h) in foreign.iter().enumerate() {
+            // flavours: bech32 v0/20, bech32m v1/32, blech32 v0/33+20, blech32m v1/33+32 (quick: two of the four
+            // per hrp, rotating; hrps of the form <network hrp>1… always get all four)
+            let critical = nets().iter().any(|(_, p)| h.starts_with(&format!("{}1", p.bech_hrp.as_str())) || h.starts_with(&format!("{}1", p.blech_hrp.as_str())));
+            for (fi, (variant, ver, plen, blinded)) in [("bech32", 0u8, 20usize, false), ("bech32m", 1, 32, false), ("blech32", 0, 20, true), ("blech32m", 1, 32, true)].iter().enumerate() {
+                if !thorough && !critical && (fi + i) % 2 == 0 {
+                    continue;
+                }
+                let mut payload = vec![];
+                if *blinded {
+                    payload.extend_from_slice(&gen::pubkey(rng).serialize());
+                }
+                payload.extend_from_slice(&gen::bytes(rng, *plen));
+                let ver = if *ver == 0 { 0 } else { rng.gen_range(1..=16u8) };
+                let t = ref_segwit(variant, h, ver, &payload);
+                check_invalid_all(out, "unknown_hrp_rejected", &t);
+                let up = t.to_uppercase();
+                check_invalid_all(out, "unknown_hrp_rejected", &up);
+                check_any(out, &t);
+            }
+        }
+    }
+
+    // ---- separator handling and length limits
+    {
+        // a '1' written into the data part of a valid address moves the separator
+        for a in all.iter().filter(|a| matches!(a.payload, Payload::WitnessProgram { .. })).step_by(if thorough { 7 } else { 61 }) {
+            let s = a.to_string();
+            let sep = s.rfind('1').unwrap();
+            for pos in [sep + 1, sep + 2, (sep + s.len()) / 2, s.len() - 1] {
+                let mut t = s.clone().into_bytes();
+                t[pos] = b'1';
+                check_invalid_all(out, "separator_in_data_rejected", &String::from_utf8(t).unwrap());
+            }
+            let t = format!("{}1{}", &s[..sep], &s[sep..]);
+            check_invalid_all(out, "separator_in_data_rejected", &t);
+            let t = format!("1{}", s);
+            check_invalid_all(out, "separator_in_data_rejected", &t);
+        }
+        // empty hrp with a valid checksum
+        for v in ["bech32", "bech32m", "blech32", "blech32m"] {
+            let mut payload = gen::pubkey(rng).serialize().to_vec();
+            payload.extend_from_slice(&gen::bytes(rng, 20));
+            let t = ref_segwit(v, "", if v.ends_with('m') { 1 } else { 0 }, if v.starts_with("bl") { &payload } else { &payload[33..] });
+            check_invalid_all(out, "empty_hrp_rejected", &t);
+        }
+        // hrp lengths around the 83-character limit (blech32 has no total length limit) and total lengths
+        // around the 90-character limit of the bech32 crate: K only (decoders), S through the address parser
+        for l in [30usize, 31, 82, 83, 84] {
+            let h: String = (0..l).map(|i| (b'a' + (i % 26) as u8) as char).collect();
+            let mut payload = gen::pubkey(rng).serialize().to_vec();
+            payload.extend_from_slice(&gen::bytes(rng, 32));
+            let t = ref_segwit("bech32m", &h, 1, &payload[33..]);
+            out.count(&format!("limits.bech32m.hrp{}.total{}", l, t.len()));
+            check_invalid_all(out, "unknown_hrp_rejected", &t);
+            let t = ref_segwit("blech32m", &h, 1, &payload);
+            check_invalid_all(out, "unknown_hrp_rejected", &t);
+        }
+        // base58 strings at the 150-character limit
+        for n in [149usize, 150, 151] {
+            let t: String = (0..n).map(|i| B58[1 + (i * 7) % 57] as char).collect();
+            check_invalid(out, "junk_rejected", &t);
         }
     }
 }
